@@ -564,3 +564,8 @@ fn c13_mutex_panicking_holder_drop_vs_contender() {
         kani::cover!(inside, "the contender's try_lock ran inside the panicking holder's guard drop");
     }
 }
+
+/// the mutex count (0 = free, 1 = held, n = held with n-1 waiters), for harnesses in other modules
+pub fn mutex_count<T: ?Sized>(m: &Mutex<T>) -> usize {
+    unsafe { *m.cnt.as_ptr() }
+}
